@@ -1,1 +1,194 @@
 // Kani harnesses compiled inside rs-matter/src/im/events.rs (module `verif_kani`).
+
+mod c12 {
+    use super::*;
+
+    use core::cell::Cell;
+
+    const E: u64 = 10000;
+
+    /// ASSUMED CONTRACT OF THE KEY-VALUE STORE: `store(key, data)` either returns `Ok` and from
+    /// then on the durable value of `key` is `data`, or returns `Err` and the durable value is
+    /// unchanged. The mock records every call and fails when the harness says so (any value).
+    struct RecKv {
+        fail: bool,
+        stores: Cell<usize>,
+        key: Cell<u16>,
+        data: Cell<[u8; 12]>,
+        len: Cell<usize>,
+    }
+
+    struct RecStore<'a>(&'a RecKv);
+
+    impl KvBlobStore for RecStore<'_> {
+        fn load<'a>(&mut self, _key: u16, _buf: &'a mut [u8]) -> Result<Option<&'a [u8]>, Error> {
+            unimplemented!()
+        }
+
+        fn store(&mut self, key: u16, data: &[u8], _buf: &mut [u8]) -> Result<(), Error> {
+            let kv = self.0;
+            kv.stores.set(kv.stores.get() + 1);
+            kv.key.set(key);
+            let mut d = [0u8; 12];
+            let n = if data.len() < 12 { data.len() } else { 12 };
+            d[..n].copy_from_slice(&data[..n]);
+            kv.data.set(d);
+            kv.len.set(data.len());
+            if kv.fail {
+                Err(ErrorCode::StdIoError.into())
+            } else {
+                Ok(())
+            }
+        }
+
+        fn remove(&mut self, _key: u16, _buf: &mut [u8]) -> Result<(), Error> {
+            unimplemented!()
+        }
+    }
+
+    impl KvBlobStoreAccess for RecKv {
+        fn access<F, R>(&self, f: F) -> R
+        where
+            F: FnOnce(&mut dyn KvBlobStore, &mut [u8]) -> R,
+        {
+            let mut buf = [0u8; 16];
+            let mut st = RecStore(self);
+            f(&mut st, &mut buf)
+        }
+    }
+
+    fn new_kv(fail: bool) -> RecKv {
+        RecKv {
+            fail,
+            stores: Cell::new(0),
+            key: Cell::new(0),
+            data: Cell::new([0; 12]),
+            len: Cell::new(0),
+        }
+    }
+
+    /// What a restart would read back from the recorded blob: the real loader's decoding.
+    fn decode_stored(kv: &RecKv) -> Option<u64> {
+        let d = kv.data.get();
+        let n = kv.len.get();
+        if n > 12 {
+            return None;
+        }
+        TLVElement::new(&d[..n]).u64().ok()
+    }
+
+    /// Step contract away from the u64 wrap: the number handed out is the live counter, numbers
+    /// are consecutive, exactly the epoch starts write the next epoch, the write happens (and
+    /// succeeded) before a number not covered by the stored boundary is returned, the number
+    /// returned is below the boundary that is durable on return; if the store fails no number
+    /// is handed out and nothing changed.
+    ///
+    /// The invariant is built in rather than assumed: either `next == 1` with anything stored,
+    /// or `D = Some(d)` with `d` the least multiple of the epoch size that is `>= next`.
+    fn check_next_event_number(fresh: bool) -> (bool, u64, bool) {
+        // Given `next != 1`, the invariant determines the durable boundary: the least epoch
+        // multiple that is >= next. (One 64-bit remainder only - the same expression the code
+        // computes - anything more and CBMC does not finish.)
+        let n: u64 = kani::any();
+        kani::assume(n >= 1 && n <= u64::MAX - 2 * E);
+        let rem = n % E;
+        let off = if rem == 0 { 0 } else { E - rem };
+        let d = n + off;
+        let (next, durable): (u64, Option<u64>) = if fresh { (1, kani::any()) } else { (n, Some(d)) };
+
+        let mut ev: EventsInner<16> = EventsInner::new();
+        ev.next_event_number = next;
+        let kv = new_kv(kani::any());
+        let mut persist = Persist::new(&kv);
+
+        let r = ev.next_event_number(&mut persist);
+
+        let epoch_start = fresh || off == 0 || next == 1;
+        kani::assert(kv.stores.get() == if epoch_start { 1 } else { 0 }, "C12.events.store_exactly_at_epoch_start");
+        let stored_ok = kv.stores.get() == 1 && !kv.fail;
+        let durable_after = if stored_ok { decode_stored(&kv) } else { durable };
+        if kv.stores.get() == 1 {
+            kani::assert(kv.key.get() == EVENT_EPOCH_KEY, "C12.events.store_key");
+            kani::assert(
+                decode_stored(&kv) == Some(if next == 1 { E } else { next + E }),
+                "C12.events.stored_value_is_next_epoch_start"
+            );
+        }
+
+        match r {
+            Ok(v) => {
+                kani::assert(v == next, "C12.events.number_is_live_counter");
+                kani::assert(ev.next_event_number == next + 1, "C12.events.numbers_consecutive");
+                // store-before-use: a number the old boundary does not cover needed a successful store
+                let covered_before = matches!(durable, Some(b) if v < b);
+                kani::assert(covered_before || stored_ok, "C12.events.uncovered_number_only_after_successful_store");
+                kani::assert(matches!(durable_after, Some(b) if v < b), "C12.events.number_below_durable_boundary");
+                // invariant re-established: the durable boundary is an epoch multiple at most
+                // one epoch ahead of the live counter
+                let n2 = ev.next_event_number;
+                let aligned = durable_after == Some(E) || durable_after == Some(d) || durable_after == Some(d + E);
+                kani::assert(aligned, "C12.events.boundary_stays_epoch_aligned");
+                kani::assert(matches!(durable_after, Some(b) if n2 <= b && b - n2 < E), "C12.events.invariant_preserved");
+            }
+            Err(_) => {
+                kani::assert(kv.stores.get() == 1 && kv.fail, "C12.events.err_only_on_store_failure");
+                kani::assert(ev.next_event_number == next, "C12.events.store_failure_hands_out_nothing");
+                kani::assert(durable_after == durable, "C12.events.store_failure_keeps_durable");
+            }
+        }
+        kani::assert(kv.fail || r.is_ok(), "C12.events.ok_when_store_works");
+        kani::assert(ev.buf_debug.head == 0 && ev.buf_info.head == 0 && ev.buf_critical.head == 0, "C12.events.frame_buffers");
+
+        (r.is_ok(), next, epoch_start)
+    }
+
+    // TIER: thorough
+    // KIND: complete
+    #[kani::proof]
+    fn c12_events_next_event_number() {
+        let (ok, next, epoch_start) = check_next_event_number(false);
+        kani::cover!(ok && next != 1 && epoch_start, "epoch start after a restart or a full epoch");
+        kani::cover!(ok && !epoch_start, "inside an epoch");
+        kani::cover!(!ok, "store failure");
+        kani::cover!(ok && next > u32::MAX as u64, "number beyond 32 bits");
+    }
+
+    /// Same contract for the fresh / factory-reset state `next == 1` (whatever is stored).
+    // TIER: thorough
+    // KIND: complete
+    #[kani::proof]
+    fn c12_events_next_event_number_fresh() {
+        let (ok, _next, _epoch_start) = check_next_event_number(true);
+        kani::cover!(ok, "first number ever");
+        kani::cover!(!ok, "store failure on the first number");
+    }
+
+    /// At the top of the u64 range (arithmetic horizon: 2^64 events): no panic, 0 is skipped,
+    /// the value written is never 0.
+    // TIER: thorough
+    // KIND: complete
+    #[kani::proof]
+    fn c12_events_next_event_number_u64_wrap() {
+        let next: u64 = kani::any();
+        kani::assume(next > u64::MAX - 2 * E);
+
+        let mut ev: EventsInner<16> = EventsInner::new();
+        ev.next_event_number = next;
+        let kv = new_kv(kani::any());
+        let mut persist = Persist::new(&kv);
+
+        let r = ev.next_event_number(&mut persist);
+
+        if let Ok(v) = r {
+            kani::assert(v == next, "C12.events.wrap_number_is_live_counter");
+            kani::assert(ev.next_event_number == if next == u64::MAX { 1 } else { next + 1 }, "C12.events.wrap_skips_zero");
+        } else {
+            kani::assert(ev.next_event_number == next, "C12.events.wrap_store_failure_hands_out_nothing");
+        }
+        if kv.stores.get() == 1 {
+            kani::assert(matches!(decode_stored(&kv), Some(d) if d != 0), "C12.events.wrap_stored_value_nonzero");
+        }
+        kani::cover!(r.is_ok() && next == u64::MAX, "last number before the wrap");
+        kani::cover!(r.is_ok() && kv.stores.get() == 1 && matches!(decode_stored(&kv), Some(d) if d < E), "stored boundary wrapped");
+    }
+}
